@@ -161,7 +161,10 @@ def m_overflowing(op):
         a, b = args
         if a.kind != "int" or b.kind != "int":
             return TopV(dest_ty, a.deps() | b.deps())
-        return I.binop(st, op + "O", a, b, f"({a.ty}, bool)")
+        # the value is the WRAPPED result (plain Add/Sub/Mul have wrapping semantics here); the checked operation's
+        # first field is the exact result under the assumption that the following assert held, which is not this
+        flag = I.binop(st, op + "O", a, b, f"({a.ty}, bool)").fields[1]
+        return AggV("tuple", [I.binop(st, op, a, b, a.ty), flag])
     return f
 
 
